@@ -334,7 +334,7 @@ def main(argv):
         os.environ["VERIF_EVIDENCE_DIR"] = "/tmp/fpv-dev-evidence"
 
     reg = load_registry()
-    sel = [h for h in reg if prop in h["props"] and (a.tier == "thorough" or h["tier"] == "quick")]
+    sel = [h for h in reg if prop in h["props"] and (h["tier"] == "quick" or (a.tier == "thorough" and h["tier"] == "thorough"))]
     if a.only:
         only = set(a.only.split(","))
         sel = [h for h in reg if h["id"] in only]
